@@ -63,8 +63,27 @@ def main():
         res["outcomes"] = ["evaluations=%d differing=%d %s" % (n, len(bad), json.dumps(bad[:3]))]
     elif mode == "warm":
         cold = [run(p) for p in progs]
+        FAILING = [
+            "var dj = []; for (var i = 0; i < 400; i++) { dj = [dj] } '' + dj",
+            "var dj = []; for (var i = 0; i < 400; i++) { dj = [dj] } dj.join('-')",
+            "var c = {}; c.c = c; JSON.stringify(c)",
+            "var a = [1]; a.push(a); JSON.stringify(a)",
+            "var a = [[1, 2], [3]]; a[0].push(a); '' + a",
+            "while (true) { }",
+            "try { while (true) { } } finally { }",
+            "(function r() { return 1 + r() })()",
+            "[1].forEach(function () { throw new Error('x') })",
+            "[3, 1, 2].sort(function () { throw 1 })",
+            "var o = {get x() { throw 2 }}; o.x",
+            "null.x", "undefinedName", "(", "var = 1", "JSON.parse('{')", "new RegExp('(')", "/(a+)+$/.test('aaaaaaaaaaaaaaaaaaaaaaaaaaaaaaaab')",
+            "'abc'.repeat(-1)", "new Array(-1)", "(1).toFixed(200)", "Object.setPrototypeOf({}, 5)", "new (function () { throw 3 })()",
+            "[1, 2, 3].reduce(function () { throw 4 })", "'a'.replace(/a/, function () { throw 5 })", "(1, eval)('throw 6')",
+            "new Function('return (')", "var s = 'a'; for (var i = 0; i < 30; i++) { s = s + s } s.length", "[].reduce(function () {})",
+        ]
         for k in range(job.get("warmups", 1000)):
             run("var w%d = %d; (function () { var a = w%d, b = a + 1; return function () { return a + b } })()()" % (k % 7, k, k % 7))
+            if k % 10 == 0:
+                run(FAILING[(k // 10) % len(FAILING)])
         e.CLOCK.now = 123456.0
         warm = [run(p) for p in progs]
         res["outcomes"] = ["same" if a == b else "differs: %s vs %s" % (a[:80], b[:80]) for a, b in zip(cold, warm)]
